@@ -22,7 +22,7 @@ from tools import common, shroudrun
 LEVEL = "proof"
 MANIFEST = dict(
     category="proof",
-    text="Lean 4 theorems (40 audited, no size bound) on a model of the plain C API assembly of wrapc.py (language c++). "
+    text="Lean 4 theorems (42 audited, no size bound) on a model of the plain C API assembly of wrapc.py (language c++). "
          "Call equivalence for ALL parameter lists and values of the modelled kinds: native/bool/struct by value, pointer, reference; "
          "native `T **` / `T *&`; char by value, `char *`, `char **`, `void **`; enum by value and (after fix f9c4cc7) by pointer/"
          "reference; std::string by value and by pointer/reference with intent in/out/inout; class instances by value/pointer/"
@@ -41,12 +41,15 @@ MANIFEST = dict(
          "win, inserting an unrelated key changes no lookup (lookup_*). Table theorems over regenerated data: every reached plain "
          "c_* entry assembles to the documented operation shape with {c_var}/{cxx_var}/{shadow_var}/{CXX_this} in the documented "
          "positions (table_arg_shapes, table_res_shapes, table_class_entries), typemap conversion patterns are mutually inverse "
-         "pairs (table_typemap_pairs), the built tree holds entry i at key i (table_tree_entries). `_partial`: "
+         "pairs (table_typemap_pairs), every line recovering a class instance from its capsule keeps the parameter's constness "
+         "in the declaration and in the cast (table_capsule_recovery_keeps_const), every predefined typemap that crosses without a "
+         "conversion has the same C and C++ type, width and signedness, except the documented complex pair (c_type_is_cxx_type), "
+         "the built tree holds entry i at key i (table_tree_entries). `_partial`: "
          "plain_keys_reach_plain_entries_partial - kinds listed under not_modelled only get 'unreachable from plain keys'; "
          "enum_indirect_old_code_ill_typed is a witness about the code before f9c4cc7.",
     design="3 C02",
     note="Tie: (T) tools/extract_cstmts.py regenerates Gen/CStmts.lean on every run (82 c_* entries, 37 template lines and the "
-         "typemap conversion patterns mapped to op codes by an explicit pattern table; an unmapped line raises). (D) real "
+         "typemap conversion patterns mapped to op codes by an explicit pattern table; an unmapped line is written as op 99, reported as a broken tie and breaks the table theorems, then the oracle searches). (D) real "
          "lookup_fc_stmts vs lookupStmts over the whole key domain plus random paths; real generate_functions+Wrapc vs assembleC "
          "(driver drv_wrapc) for every C-wrapped function of generated C++ libraries and the C++ corpus: matched statement names, "
          "prototype, call list, `this` set-up, call/return shape; C names versus the documented naming rule computed from the "
@@ -58,7 +61,8 @@ MANIFEST = dict(
          "class templates, const/static methods, ctor/dtor (handle NULL and idtor unchanged after dtor), class results by "
          "pointer/reference/value, struct arguments on methods and in namespaces, enum by pointer/reference, callbacks, char **, "
          "void **, customised C_prefix and C_name_template; overload-resolution observations (wrapped overload sets on std::string "
-         "by reference or value / bool / const char * / int / double / long, and unwrapped decoy overloads in the subject library: "
+         "by reference or value / bool / const char * / int / double / long, overloads differing only in the constness of a class "
+         "reference/pointer parameter, and unwrapped decoy overloads in the subject library: "
          "bool and const char * next to every std::string parameter, an ordinary function next to every function template) and "
          "identity observations for class results (same address on every call, not caller-owned, `*this` returned by reference is "
          "the object called on; by-value results are caller-owned copies); the tie also requires the explicit template arguments "
